@@ -124,3 +124,69 @@ example (s : ItemStruct) (e : Entry) (k : Kinds) (fields : List FieldE) (h : Fie
   rw [this.2.2, clone_struct_fields]
 
 end DX
+
+namespace DX
+
+theorem mapM_ok_mem {α β} {f : α → R β} :
+    ∀ (l : List α) (r : List β), l.mapM f = .ok r → ∀ b ∈ r, ∃ a ∈ l, f a = .ok b
+  | [], r, h, b, hb => by
+    simp only [List.mapM_nil, pure, Except.pure, Except.ok.injEq] at h
+    subst h; cases hb
+  | a :: l, r, h, b, hb => by
+    rw [List.mapM_cons] at h
+    cases hfa : f a with
+    | error e => simp [hfa, bind, Except.bind] at h
+    | ok b0 =>
+      cases hl : l.mapM f with
+      | error e => simp [hfa, hl, bind, Except.bind] at h
+      | ok bs =>
+        simp only [hfa, hl, bind, Except.bind, pure, Except.pure, Except.ok.injEq] at h
+        subst h
+        rcases List.mem_cons.1 hb with rfl | hb
+        · exact ⟨a, by simp, hfa⟩
+        · obtain ⟨a', ha', hfa'⟩ := mapM_ok_mem l bs hl b hb
+          exact ⟨a', by simp [ha'], hfa'⟩
+
+/-- the same for every variant of an enum -/
+theorem fromVariants_indexDistinct (vs : List Variant) (k : Kinds) (variants : List VariantE)
+    (h : VariantE.fromVariants vs k = .ok variants) : ∀ v ∈ variants, IndexDistinct v.fields := by
+  intro v hv
+  unfold VariantE.fromVariants at h
+  obtain ⟨v0, _, hv0⟩ := mapM_ok_mem _ _ h v hv
+  cases hf : FieldE.fromFields v0.fields k with
+  | error e => simp [hf, bind, Except.bind] at hv0
+  | ok fields =>
+    cases hh : HAttrs.fromAttrs v0.attrs .variant k with
+    | error e => simp [hf, hh, bind, Except.bind] at hv0
+    | ok ha =>
+      simp only [hf, hh, bind, Except.bind, pure, Except.pure, Except.ok.injEq] at hv0
+      subst hv0
+      exact fromFields_indexDistinct _ _ _ hf
+
+/-- **C08 without side condition**: for every struct the expander accepts, every form of a derived binary operator
+computes field `i` of the result from field `i` of the operands, left operand on the left, and runs each field's operator
+exactly once, in declaration order -/
+theorem bin_fieldwise_pipeline (kind : Kind) (s : ItemStruct) (e : Entry) (k : Kinds) (fields : List FieldE)
+    (h : FieldE.fromFields s.fields k = .ok fields) {V} (σ : OpSem V) (l r : Bool) (x y : Val V) :
+    (∀ f ∈ fields, (evalBin (buildOps kind s e fields) σ l r x y).1.field f.index =
+        σ.bin f l r (x.field f.index) (y.field f.index)) ∧
+    (evalBin (buildOps kind s e fields) σ l r x y).2 =
+      fields.map fun f => { field := f.index, lhsRef := l, rhsRef := r } := by
+  have hd := fromFields_indexDistinct s.fields k fields h
+  have := bin_fieldwise (buildOps kind s e fields) σ l r x y (by rwa [ops_fields])
+  rw [ops_fields] at this
+  exact this
+
+/-- **C07 without side condition**, enums: `clone` of a value of variant `i` calls `Clone::clone` once per field of that
+variant, in declaration order -/
+theorem clone_enum_trace_pipeline (en : ItemEnum) (e : Entry) (k : Kinds) (variants : List VariantE)
+    (h : VariantE.fromVariants en.variants k = .ok variants) {V} (σ : CloneSem V) (a : Val V)
+    (v : VariantE) (hv : variants[a.variant]? = some v) :
+    (evalClone (buildCloneEnum en e variants) σ a).2 = v.fields.map fun f => CloneEv.clone f.index := by
+  have hd := fromVariants_indexDistinct en.variants k variants h v (List.mem_of_getElem? hv)
+  have hf : fieldsOfShape (buildCloneEnum en e variants).shape a.variant = v.fields := by
+    rw [clone_enum_fields, hv]
+  have := clone_fieldwise (buildCloneEnum en e variants) σ a (by rwa [hf])
+  rw [this.2.2, hf]
+
+end DX
